@@ -32,8 +32,9 @@ VARIABLES l,        \* next line
           classes,  \* class names that have a pool entry in this phase
           stk,      \* addresses of the objects whose serialize() is running
           pendReg,  \* L: id announced by needToLoadObject, to be registered by registerObject (0 = none)
-          BS        \* block size of this pool
-tv == <<l, ph, cnt, np, si, s1end, bw, br, classes, stk, pendReg, BS>>
+          BS,       \* block size of this pool
+          r0        \* line of the Reset record of the current pool (several pools are concatenated in one file)
+tv == <<l, ph, cnt, np, si, s1end, bw, br, classes, stk, pendReg, BS, r0>>
 
 SizeOf(t) == CASE t \in {2, 3, 4} -> 1 [] t \in {1, 5} -> 2 [] t \in {6, 7, 10} -> 4 [] OTHER -> 8
 AlignOf(t) == IF t \in {12, 13, 14} THEN 1 ELSE SizeOf(t)     \* writeSize / writeInt64 / writeUInt64 copy without aligning
@@ -69,7 +70,7 @@ StoreStep ==
       [] E.e = "XsObj" /\ E.k = 1 ->                    \* back reference: the address is in the store pool under id n
             /\ IsPrim(Prev(1), UINT) /\ Prev(1).v = E.n
             /\ E.n \in 1..cnt /\ E.p \in 1..np
-            /\ E.src \in 2..(l - 1) /\ Tr[E.src].e = "XsObj" /\ Tr[E.src].k = 2 /\ Tr[E.src].n = E.n /\ Tr[E.src].p = E.p /\ SamePhase(Tr[E.src])
+            /\ E.src \in (r0 + 1)..(l - 1) /\ Tr[E.src].e = "XsObj" /\ Tr[E.src].k = 2 /\ Tr[E.src].n = E.n /\ Tr[E.src].p = E.p /\ SamePhase(Tr[E.src])
             /\ UNCHANGED <<bw, cnt, np, classes, stk>>
       [] E.e = "XsObj" /\ E.k = 2 ->                    \* new object: its class first, then addStorePool, then serialize()
             /\ Prev(1).e = "XsCls" /\ Prev(1).c = E.c
@@ -81,7 +82,7 @@ StoreStep ==
       [] E.e = "XsCls" /\ E.k = 1 ->                    \* write(XProtoType p): class already in the pool
             /\ IsPrim(Prev(1), UINT) /\ Prev(1).v = ClassTagV(E.n)
             /\ E.c \in classes /\ E.n \in 1..cnt
-            /\ E.src \in 2..(l - 1) /\ Tr[E.src].e = "XsCls" /\ Tr[E.src].k = 2 /\ Tr[E.src].n = E.n /\ Tr[E.src].c = E.c /\ Tr[E.src].p = E.p /\ SamePhase(Tr[E.src])
+            /\ E.src \in (r0 + 1)..(l - 1) /\ Tr[E.src].e = "XsCls" /\ Tr[E.src].k = 2 /\ Tr[E.src].n = E.n /\ Tr[E.src].c = E.c /\ Tr[E.src].p = E.p /\ SamePhase(Tr[E.src])
             /\ UNCHANGED <<bw, cnt, np, classes, stk>>
       [] E.e = "XsCls" /\ E.k = 2 ->                    \* new class: tag, name length, name; then addStorePool
             /\ IsPrim(Prev(3), UINT) /\ Prev(3).v = NewClassTagV
@@ -93,7 +94,7 @@ StoreStep ==
             /\ UNCHANGED <<bw, cnt, np, classes, stk>>
       [] E.e = "XsTpl" /\ E.k = 1 ->
             /\ IsPrim(Prev(1), UINT) /\ Prev(1).v = E.n /\ E.n \in 1..cnt /\ E.p \in 1..np
-            /\ E.src \in 2..(l - 1) /\ Tr[E.src].e = "XsTpl" /\ Tr[E.src].k = 2 /\ Tr[E.src].n = E.n /\ Tr[E.src].p = E.p /\ SamePhase(Tr[E.src])
+            /\ E.src \in (r0 + 1)..(l - 1) /\ Tr[E.src].e = "XsTpl" /\ Tr[E.src].k = 2 /\ Tr[E.src].n = E.n /\ Tr[E.src].p = E.p /\ SamePhase(Tr[E.src])
             /\ UNCHANGED <<bw, cnt, np, classes, stk>>
       [] E.e = "XsTpl" /\ E.k = 2 ->
             /\ IsPrim(Prev(1), UINT) /\ Prev(1).v = TemplateTagV
@@ -145,36 +146,41 @@ LoadStep ==
              [] E.e = "XsLevel" -> E.k = 1 /\ UNCHANGED <<br, cnt, np, classes, stk, pendReg>>
              [] OTHER -> E.p = S.p /\ UNCHANGED <<br, cnt, np, classes, stk, pendReg>>
 
-\* S2 against S1: the same stream up to the values of XMLSize_t primitives (type 12: pool-internal ids)
+\* S2 against S1: the same stream up to the values of XMLSize_t primitives (type 12: pool-internal ids).  A hash table whose
+\* buckets hold more than one entry is enumerated in the opposite bucket order after a load, so for such pools (Reset.k = 0) S2 is
+\* a permutation of S1 at container level: S2 is then required to be a well-formed store stream of the same length (StoreStep), and
+\* the equality of the multisets of per-object records is checked on the same file by lib/vf/checks/c16.py (_restore_equivalent).
 SameStored(a, b) == /\ a.e = b.e /\ a.k = b.k /\ a.n = b.n /\ a.c = b.c /\ a.pos = b.pos /\ a.sz = b.sz /\ a.p = b.p
                     /\ (a.v = b.v \/ (a.e = "XsPrim" /\ a.k = 12))
 
 TReset == /\ l <= N /\ E.e = "Reset"
           /\ ph' = 0 /\ cnt' = 0 /\ np' = 0 /\ si' = 0 /\ s1end' = 0 /\ bw' = [blk |-> 0, cur |-> 0] /\ br' = [blk |-> 1, cur |-> 0, max |-> E.n]
-          /\ classes' = {} /\ stk' = <<>> /\ pendReg' = 0 /\ BS' = E.n /\ l' = l + 1
+          /\ (ph \in {-1, 3})                                   \* the previous pool was validated to its End
+          /\ classes' = {} /\ stk' = <<>> /\ pendReg' = 0 /\ BS' = E.n /\ r0' = l /\ l' = l + 1
 TStore == /\ l <= N /\ E.e \notin {"Reset", "Phase", "End"} /\ E.d = 0 /\ ph = 0
-          /\ StoreStep /\ l' = l + 1 /\ UNCHANGED <<ph, si, s1end, br, pendReg, BS>>
+          /\ StoreStep /\ l' = l + 1 /\ UNCHANGED <<ph, si, s1end, br, pendReg, BS, r0>>
 TPhase1 == /\ l <= N /\ E.e = "Phase" /\ E.d = 1 /\ ph = 0
            /\ stk = <<>>                                          \* every serialize() returned
-           /\ bw.blk + 1 = Tr[1].v                                \* the final flush: number of blocks of the stream
-           /\ ph' = 1 /\ cnt' = 0 /\ np' = 0 /\ classes' = {} /\ si' = 2 /\ s1end' = l /\ l' = l + 1
-           /\ UNCHANGED <<bw, br, stk, pendReg, BS>>
+           /\ bw.blk + 1 = Tr[r0].v                                \* the final flush: number of blocks of the stream
+           /\ ph' = 1 /\ cnt' = 0 /\ np' = 0 /\ classes' = {} /\ si' = r0 + 1 /\ s1end' = l /\ l' = l + 1
+           /\ UNCHANGED <<bw, br, stk, pendReg, BS, r0>>
 TLoad == /\ l <= N /\ E.e \notin {"Reset", "Phase", "End"} /\ E.d = 1 /\ ph = 1
-         /\ LoadStep /\ l' = l + 1 /\ UNCHANGED <<ph, s1end, bw, BS>>
+         /\ LoadStep /\ l' = l + 1 /\ UNCHANGED <<ph, s1end, bw, BS, r0>>
 TPhase2 == /\ l <= N /\ E.e = "Phase" /\ E.d = 2 /\ ph = 1
            /\ si = s1end /\ stk = <<>> /\ pendReg = 0             \* the load consumed the whole stream
-           /\ ph' = 2 /\ cnt' = 0 /\ np' = 0 /\ classes' = {} /\ si' = 2 /\ bw' = [blk |-> 0, cur |-> 0] /\ l' = l + 1
-           /\ UNCHANGED <<s1end, br, stk, pendReg, BS>>
+           /\ ph' = 2 /\ cnt' = 0 /\ np' = 0 /\ classes' = {} /\ si' = r0 + 1 /\ bw' = [blk |-> 0, cur |-> 0] /\ l' = l + 1
+           /\ UNCHANGED <<s1end, br, stk, pendReg, BS, r0>>
 TRestore == /\ l <= N /\ E.e \notin {"Reset", "Phase", "End"} /\ E.d = 2 /\ ph = 2
-            /\ si < s1end /\ SameStored(E, S) /\ si' = si + 1
-            /\ StoreStep /\ l' = l + 1 /\ UNCHANGED <<ph, s1end, br, pendReg, BS>>
+            /\ si < s1end /\ si' = si + 1                          \* as many events as S1 (equivalence of contents: see SameStored)
+            /\ (Tr[r0].k = 1 => SameStored(E, S))                  \* pools without hash collisions: the very same stream
+            /\ StoreStep /\ l' = l + 1 /\ UNCHANGED <<ph, s1end, br, pendReg, BS, r0>>
 TEnd == /\ l <= N /\ E.e = "End" /\ ph = 2
         /\ si = s1end /\ stk = <<>>
-        /\ ph' = 3 /\ l' = l + 1 /\ UNCHANGED <<cnt, np, si, s1end, bw, br, classes, stk, pendReg, BS>>
+        /\ ph' = 3 /\ l' = l + 1 /\ UNCHANGED <<cnt, np, si, s1end, bw, br, classes, stk, pendReg, BS, r0>>
 
 TInit == /\ Init /\ B = 16
          /\ l = 1 /\ ph = -1 /\ cnt = 0 /\ np = 0 /\ si = 0 /\ s1end = 0 /\ bw = [blk |-> 0, cur |-> 0] /\ br = [blk |-> 1, cur |-> 0, max |-> 0]
-         /\ classes = {} /\ stk = <<>> /\ pendReg = 0 /\ BS = 0
+         /\ classes = {} /\ stk = <<>> /\ pendReg = 0 /\ BS = 0 /\ r0 = 0
 TNext == (TReset \/ TStore \/ TPhase1 \/ TLoad \/ TPhase2 \/ TRestore \/ TEnd) /\ UNCHANGED vars
 TSpec == TInit /\ [][TNext]_<<vars, tv>>
 
